@@ -27,3 +27,4 @@ CFG['level_text'] += ' Every other concurrent round shares one reader among the 
 CFG['level_text'] += ' Tile height 30, the largest accepted, is part of both tiers.'
 CFG['level_text'] += ' Heights 9 and 10 and trees of 600 and 1030 records are part of the quick tier (spans of more than 2^9 hashes inside one tile).'
 CFG['level_text'] += ' ReadTileData is also driven, for half of the published tiles, with a storage reader whose reply is short without an error (one hash or all hashes missing): refusal or the true tile are the only outcomes allowed.'
+CFG['level_text'] += ' In the concurrent rounds (96 quick / 800 thorough) the q-th reads of the eight goroutines are released together by a gate.'
